@@ -1706,7 +1706,26 @@ fn dense_cases(thorough: bool) -> Vec<Case> {
 /// class relative to the stride: entry - 1, entry, entry + 1, .. entry + 20 (so that the window's first frame crosses the
 /// entry as well), mid-stride, around the last entry, the tail.  A sweep, not a sample; no randomness but the "+ a few".
 /// The base thread is built once per length (base cache), every variant is a copy of that store.
-const SEEK_STRIDE: u64 = 256; // continuity_seek_index.rs SEEK_INDEX_STRIDE_EVENTS_V1 (the seek files themselves carry it: checked below)
+const SEEK_STRIDE_DEFAULT: u64 = 256; // continuity_seek_index.rs SEEK_INDEX_STRIDE_EVENTS_V1 as of /repo fb2d1ab
+static SEEK_STRIDE_SEEN: std::sync::atomic::AtomicU64 = std::sync::atomic::AtomicU64::new(0);
+/// The stride the CURRENT source writes, read from the first entry of a one-message store's seek index (every entry carries it):
+/// a different stride in /repo is not a violation, the sweep simply follows it.
+fn seek_stride() -> u64 {
+    use std::sync::atomic::Ordering::Relaxed;
+    let seen = SEEK_STRIDE_SEEN.load(Relaxed);
+    if seen != 0 {
+        return seen;
+    }
+    let b = build_uncached(&Case { ops: vec![Op::Msg { size: 5 }], queries: vec![], long: true });
+    let stride = std::fs::read(target_path(b.scratch.path(), &b.id, Target::Seek))
+        .ok()
+        .and_then(|raw| raw.split(|c| *c == b'\n').next().and_then(|l| serde_json::from_slice::<Value>(l).ok()))
+        .and_then(|v| v.get("stride").and_then(|x| x.as_u64()))
+        .filter(|s| *s >= 2 && *s <= 4096)
+        .unwrap_or(SEEK_STRIDE_DEFAULT);
+    SEEK_STRIDE_SEEN.store(stride, Relaxed);
+    stride
+}
 fn stride_thread(total_frames: u64) -> Vec<Op> {
     let mut ops = vec![];
     let mut frames = 1u64; // continuity_created
@@ -1742,6 +1761,42 @@ fn stride_thread(total_frames: u64) -> Vec<Op> {
     let _ = runs;
     ops
 }
+/// The seek index of an intact store against the full sidecar it indexes: one entry per frame whose seq is a multiple of the
+/// stride, at that frame's line start, nothing else (Model/SeekIndex.v `seek_index`, in bytes).  None = conforms.
+fn seek_index_conforms(root: &Path, id: &str) -> Option<String> {
+    let full = std::fs::read(target_path(root, id, Target::Full)).ok()?;
+    let mut want: Vec<(u64, u64)> = vec![];
+    let mut off = 0u64;
+    for line in full.split_inclusive(|c| *c == b'\n') {
+        let seq = serde_json::from_slice::<Value>(line).ok().and_then(|v| v.get("seq").and_then(|x| x.as_u64()));
+        match seq {
+            Some(s) if s % seek_stride() == 0 => want.push((s, off)),
+            Some(_) => {}
+            None => return Some(format!("full sidecar line at byte {off} does not parse")),
+        }
+        off += line.len() as u64;
+    }
+    let raw = match std::fs::read(target_path(root, id, Target::Seek)) {
+        Ok(r) => r,
+        Err(_) => return Some("no seek index next to an intact full sidecar after appends".into()),
+    };
+    let mut got: Vec<(u64, u64)> = vec![];
+    for line in raw.split(|c| *c == b'\n').filter(|l| !l.is_empty()) {
+        let v: Value = match serde_json::from_slice(line) {
+            Ok(v) => v,
+            Err(_) => return Some("seek index line does not parse".into()),
+        };
+        if v.get("stride").and_then(|x| x.as_u64()) != Some(seek_stride()) {
+            return Some(format!("seek index entry carries stride {:?}, the other entries carry {}", v.get("stride"), seek_stride()));
+        }
+        got.push((v.get("seq").and_then(|x| x.as_u64()).unwrap_or(u64::MAX), v.get("offset").and_then(|x| x.as_u64()).unwrap_or(u64::MAX)));
+    }
+    if got != want {
+        return Some(format!("seek index entries (seq, offset) {:?} != one per {} frames at the frame's line start {:?}", got, seek_stride(), want));
+    }
+    None
+}
+static STRIDE_INDEX_FINDINGS: std::sync::Mutex<Vec<(Vec<Op>, String)>> = std::sync::Mutex::new(Vec::new());
 fn stride_cases(thorough: bool, seed: u64) -> (Vec<Case>, Vec<u64>) {
     use FaultKind::*;
     use Target::*;
@@ -1749,9 +1804,9 @@ fn stride_cases(thorough: bool, seed: u64) -> (Vec<Case>, Vec<u64>) {
     // quick: ONE thread (3 strides + a few: four seek entries); thorough: 1x, 2x, 3x, 5x + a few, and the lengths at which
     // the last frame IS an entry / the frame just behind one / the frame just in front of one
     let lengths: Vec<u64> = if thorough {
-        vec![3 * SEEK_STRIDE + few + 1, SEEK_STRIDE + few + 1, 2 * SEEK_STRIDE + few + 1, 5 * SEEK_STRIDE + few + 1, 2 * SEEK_STRIDE + 1, 2 * SEEK_STRIDE + 2, 2 * SEEK_STRIDE, 4 * SEEK_STRIDE + 130]
+        vec![3 * seek_stride() + few + 1, seek_stride() + few + 1, 2 * seek_stride() + few + 1, 5 * seek_stride() + few + 1, 2 * seek_stride() + 1, 2 * seek_stride() + 2, 2 * seek_stride(), 4 * seek_stride() + 130]
     } else {
-        vec![3 * SEEK_STRIDE + few + 1]
+        vec![3 * seek_stride() + few + 1]
     };
     let mut out = vec![];
     let mut keys = vec![];
@@ -1767,13 +1822,16 @@ fn stride_cases(thorough: bool, seed: u64) -> (Vec<Case>, Vec<u64>) {
         }
         let b = build(&probe);
         let abs = abstract_truth(b.scratch.path(), &b.id);
+        if let Some(what) = seek_index_conforms(b.scratch.path(), &b.id) {
+            STRIDE_INDEX_FINDINGS.lock().unwrap().push((ops.clone(), what));
+        }
         let mseq: Vec<u64> = b.messages.iter().filter_map(|m| abs.seq_of_event.get(m).copied()).collect();
         if mseq.len() != b.messages.len() || mseq.is_empty() {
             continue;
         }
         let n = mseq.len() as u64;
         let last_seq = abs.truth.last().map(|e| e.seq).unwrap_or(0);
-        let entries: Vec<u64> = (1..=last_seq / SEEK_STRIDE).map(|k| k * SEEK_STRIDE).collect();
+        let entries: Vec<u64> = (1..=last_seq / seek_stride()).map(|k| k * seek_stride()).collect();
         let idx_in = |lo: u64, hi: u64| -> Vec<u64> { mseq.iter().enumerate().filter(|(_, s)| **s >= lo && **s <= hi).map(|(i, _)| i as u64).collect() };
         // full sweep: every message from 3 frames in front of an entry to 20 behind it, the middle of every stride, the first
         // messages, the tail; thin sweep: entry - 1, entry, entry + 1 (nearest messages), mid-stride, the tail
@@ -1785,8 +1843,8 @@ fn stride_cases(thorough: bool, seed: u64) -> (Vec<Case>, Vec<u64>) {
             thin.extend(idx_in(e.saturating_sub(2), e + 2));
             thin.extend(idx_in(e + 17, e + 18)); // the window's first frame just behind the entry
         }
-        for k in 0..=last_seq / SEEK_STRIDE {
-            let mid = k * SEEK_STRIDE + SEEK_STRIDE / 2;
+        for k in 0..=last_seq / seek_stride() {
+            let mid = k * seek_stride() + seek_stride() / 2;
             full.extend(idx_in(mid, mid + 2));
             thin.extend(idx_in(mid, mid + 1));
         }
@@ -1803,13 +1861,13 @@ fn stride_cases(thorough: bool, seed: u64) -> (Vec<Case>, Vec<u64>) {
         let le = entries.last().copied().unwrap_or(0);
         let at = |s: u64| idx_in(s, s + 3).first().copied().unwrap_or(0);
         let mut other = vec![
-            Q::CutPoints { stride: SEEK_STRIDE - 1, limit: 8 }, Q::CutPoints { stride: SEEK_STRIDE, limit: 8 }, Q::CutPoints { stride: SEEK_STRIDE + 1, limit: 8 }, Q::CutPoints { stride: 64, limit: 32 }, Q::CutPoints { stride: 1, limit: 8 },
-            Q::CompactionStatus { stride: 64 }, Q::CompactionStatus { stride: SEEK_STRIDE },
+            Q::CutPoints { stride: seek_stride() - 1, limit: 8 }, Q::CutPoints { stride: seek_stride(), limit: 8 }, Q::CutPoints { stride: seek_stride() + 1, limit: 8 }, Q::CutPoints { stride: 64, limit: 32 }, Q::CutPoints { stride: 1, limit: 8 },
+            Q::CompactionStatus { stride: 64 }, Q::CompactionStatus { stride: seek_stride() },
             Q::Selection { limit: 1 }, Q::Selection { limit: 10 }, Q::Selection { limit: 50 }, Q::CursorStatus, Q::Replay,
         ];
         if le > 0 {
             other.extend([
-                Q::BranchCut { sel: Sel::Seq(le - 1) }, Q::BranchCut { sel: Sel::Seq(le) }, Q::HandoffCut { sel: Sel::Seq(le + 1) }, Q::BranchCut { sel: Sel::Msg(at(le)) }, Q::HandoffCut { sel: Sel::Msg(at(le.saturating_sub(SEEK_STRIDE / 2))) },
+                Q::BranchCut { sel: Sel::Seq(le - 1) }, Q::BranchCut { sel: Sel::Seq(le) }, Q::HandoffCut { sel: Sel::Seq(le + 1) }, Q::BranchCut { sel: Sel::Msg(at(le)) }, Q::HandoffCut { sel: Sel::Msg(at(le.saturating_sub(seek_stride() / 2))) },
             ]);
         }
         let mid_line = n / 2;
@@ -2269,7 +2327,7 @@ fn main() {
             res.bump("stride_family:stores (one base thread per length, copied per knock-out)");
             res.bump_by("stride_family:queries", case.queries.len() as u64);
             res.bump_by("stride_family:compile_anchors", case.queries.iter().filter(|q| matches!(q, Q::Compile { .. })).count() as u64);
-            res.bump(&format!("stride_family:frames={} (seek entries {})", out.abs.truth.len(), (out.abs.truth.len() as u64 + SEEK_STRIDE - 1) / SEEK_STRIDE));
+            res.bump(&format!("stride_family:frames={} (seek entries {})", out.abs.truth.len(), (out.abs.truth.len() as u64 + seek_stride() - 1) / seek_stride()));
         }
         res.bump_by("op_errors", out.op_errors);
         let nf = case.ops.iter().filter(|o| matches!(o, Op::Fault { .. } | Op::LoseDir)).count();
@@ -2433,6 +2491,19 @@ fn main() {
                 }
             }
         }
+    }
+    // the seek index of every stride-family base store against the full sidecar it indexes (writer side of the stride)
+    res.oracle_checks += stride_keys.len() as u64;
+    res.bump_by("stride_family:seek_index_conformance_checks", stride_keys.len() as u64);
+    for (ops, what) in STRIDE_INDEX_FINDINGS.lock().unwrap().iter() {
+        let class = "cache_writer_nonconforming:Seek".to_string();
+        *seen_classes.entry(class.clone()).or_insert(0) += 1;
+        res.oracle_violations.push(OracleViolation {
+            case_id: -200_000,
+            what: format!("after the appends of the history, with no fault: {what}"),
+            class,
+            replay: json!({"case": case_json(&Case { ops: ops.clone(), queries: vec![], long: true }), "check": "seek index = one entry per stride frames at the frame's line start"}),
+        });
     }
     w.flush();
     wc.flush();
